@@ -80,6 +80,8 @@ def build_fs(world):
             files[root + '/' + rel] = text
     fs = SimFS(files, env=world.get('env') or {}, cwd='/sim/cwd')
     fs.faults = [dict(f) for f in world.get('faults') or []]
+    if world.get('install'):
+        fs.path_map = [(core.pgradd_dir(), world['install'])]
     return fs
 
 
@@ -99,6 +101,10 @@ def segment(state, chain):
     """Runs in a forked child: one process lifetime."""
     world, ops = chain
     fs = build_fs(world)
+    if world.get('register_demo'):
+        # the documented extension point: one more property-set type; the
+        # shipped libraries carry no data of that type and must load as ever
+        libops.register_demo_property_set()
     undo = fs.install()
     outs = []
     try:
@@ -162,7 +168,7 @@ def sweep(lib, name):
     probs = []
     n_eval = 0
     for g in sorted(lib.contents, key=str):
-        corr = lib.contents[g].get('thermochem')
+        corr = libops.pset(lib.contents[g], 'thermochem')
         if corr is None:
             continue
         rng = corr.get_range()
@@ -304,7 +310,11 @@ class Run(object):
         spec = self.spec
         world = {'roots': list(spec['roots']), 'env': dict(spec.get('env') or {}),
                  'faults': spec.get('faults') or [],
-                 'missing': spec.get('missing') or {}}
+                 'missing': spec.get('missing') or {},
+                 'install': spec.get('install'),
+                 'register_demo': spec.get('register_demo')}
+        self.bundled = spec['install'] + '/data' if spec.get('install') \
+            else bundled_dir()
         env = dict(world['env'])
         for li, life in enumerate(spec['lives']):
             world['env'] = env
@@ -351,7 +361,7 @@ class Run(object):
         # changed override may or may not be honoured (not stated), so both
         # directories are acceptable then.  A failed resolution resolves
         # nothing.
-        cur = env.get(ENVVAR) or bundled_dir()
+        cur = env.get(ENVVAR) or self.bundled
         cur_valid = cur in world['roots']
         if op['op'] == 'load_name':
             if resolved is None:
@@ -491,6 +501,24 @@ def matrix_specs():
                           {'op': 'chdir', 'dir': ELSEWHERE},
                           {'op': 'load_path', 'lib': a, 'root': ELSEWHERE,
                            'rel': 'root'}]}]})
+    # one more property-set type registered before loading
+    for lib in small[:2] + ['BensonGA']:
+        specs.append({'id': 'matrix-extraset-%s' % lib,
+                      'roots': [bundled_dir(), ELSEWHERE], 'env': {},
+                      'register_demo': True, 'lives': [{'ops': [
+                          {'op': 'load_name', 'lib': lib},
+                          {'op': 'load_path', 'lib': lib,
+                           'root': ELSEWHERE}]}]})
+    # the package installed somewhere else: below a directory that is itself
+    # called 'pgradd', and below an unrelated one
+    for inst in ('/sim/home/pgradd/src/pgradd',
+                 '/sim/opt/py/site-packages/pgradd',
+                 '/sim/pgradd/pgradd/lib/pgradd'):
+        specs.append({'id': 'matrix-install-%s' % inst.replace('/', '_'),
+                      'roots': [inst + '/data'], 'env': {}, 'install': inst,
+                      'lives': [{'ops': [
+                          {'op': 'load_name', 'lib': small[0]},
+                          {'op': 'load_name', 'lib': small[1]}]}]})
     return specs
 
 
